@@ -30,12 +30,12 @@ import (
 // ---------------------------------------------------------------- tokens
 
 type ptok struct {
-	K   string // int sym path str bool call block op idx dot semi colon kw label | nl (render only)
-	S   string // name (sym, path, str, op, dot, kw, label, call function)
-	N   int64
+	K   string // int sym path str bool nil chr uint flt call block op idx dot semi colon kw label | nl (render only)
+	S   string // name (sym, path, str, op, dot, kw, label, call function); value of uint, flt as projected
+	N   int64  // int, chr (code point)
 	B   bool
 	Sub []ptok // block / idx contents, call arguments
-	Alt string // alternative spelling of an operator (&& ||)
+	Alt string // alternative spelling: of an operator (&& ||), an int (0x1F 0o17 0b11), a float (Inf for +Inf)
 }
 
 func ptInt(n int64) ptok              { return ptok{K: "int", N: n} }
@@ -43,6 +43,10 @@ func ptSym(s string) ptok             { return ptok{K: "sym", S: s} }
 func ptPath(s string) ptok            { return ptok{K: "path", S: s} }
 func ptStr(s string) ptok             { return ptok{K: "str", S: s} }
 func ptBool(b bool) ptok              { return ptok{K: "bool", B: b} }
+func ptChr(c rune) ptok               { return ptok{K: "chr", N: int64(c)} }
+func ptUint(s string) ptok            { return ptok{K: "uint", S: s} }
+func ptFlt(val, spelled string) ptok  { return ptok{K: "flt", S: val, Alt: spelled} }
+func ptIntAs(n int64, sp string) ptok { return ptok{K: "int", N: n, Alt: sp} }
 func ptOp(s string) ptok              { return ptok{K: "op", S: s} }
 func ptKw(s string) ptok              { return ptok{K: "kw", S: s} }
 func ptDot(s string) ptok             { return ptok{K: "dot", S: s} }
@@ -52,6 +56,8 @@ func ptBlock(sub ...ptok) ptok        { return ptok{K: "block", Sub: sub} }
 func ptCall(f string, a ...ptok) ptok { return ptok{K: "call", S: f, Sub: a} }
 
 var (
+	ptNil   = ptok{K: "nil"}
+	ptInf   = ptFlt("+Inf", "Inf")
 	ptSemi  = ptok{K: "semi"}
 	ptColon = ptok{K: "colon"}
 	ptNl    = ptok{K: "nl"}
@@ -74,7 +80,9 @@ func (t ptok) json() any {
 		return []any{"int", t.N}
 	case "bool":
 		return []any{"bool", t.B}
-	case "sym", "path", "str", "op", "dot", "kw", "label":
+	case "chr":
+		return []any{"chr", t.N}
+	case "sym", "path", "str", "op", "dot", "kw", "label", "uint", "flt":
 		return []any{t.K, t.S}
 	case "call":
 		return []any{"call", t.S, ptoksJSON(t.Sub)}
@@ -102,6 +110,9 @@ func ptIsWordByte(c byte) bool {
 func (t ptok) text(rd *ptRenderer) string {
 	switch t.K {
 	case "int":
+		if t.Alt != "" {
+			return t.Alt
+		}
 		return strconv.FormatInt(t.N, 10)
 	case "bool":
 		if t.B {
@@ -110,6 +121,17 @@ func (t ptok) text(rd *ptRenderer) string {
 		return "false"
 	case "str":
 		return strconv.Quote(t.S)
+	case "nil":
+		return "nil"
+	case "chr":
+		return "'" + string(rune(t.N)) + "'"
+	case "uint":
+		return t.S + "ULL"
+	case "flt":
+		if t.Alt != "" {
+			return t.Alt
+		}
+		return t.S
 	case "sym", "path", "dot", "kw":
 		return t.S
 	case "label":
@@ -156,7 +178,10 @@ func (rd *ptRenderer) mustSeparate(a, b ptok, as, bs string) bool {
 	if a.K == "nl" || b.K == "nl" {
 		return false
 	}
-	if ptIsWordByte(la) && (ptIsWordByte(fb) || fb == '"') {
+	if ptIsWordByte(la) && (ptIsWordByte(fb) || fb == '"' || fb == '\'') {
+		return true
+	}
+	if la == '\'' && (ptIsWordByte(fb) || fb == '\'' || fb == '"') {
 		return true
 	}
 	if a.K == "label" {
@@ -280,6 +305,8 @@ func ptPrefixAtom(t ptok) string {
 		return "false"
 	case "str":
 		return strconv.Quote(t.S)
+	case "nil", "chr", "uint", "flt":
+		return t.text(nil)
 	case "sym", "path":
 		return t.S
 	case "call":
@@ -339,12 +366,40 @@ func (c *ptClimber) stmt() string {
 		c.i += 2
 		return c.forStmt(t.S)
 	case t.K == "kw" && (t.S == "break" || t.S == "continue"):
-		c.i++
-		if n, ok := c.peek(); ok && n.K == "sym" {
+		return c.ctl()
+	}
+	return c.expr(0)
+}
+
+// ctl: break / continue; a symbol after it is the label when no operator or postfix extends it.
+func (c *ptClimber) ctl() string {
+	t, _ := c.peek()
+	c.i++
+	if n, ok := c.peek(); ok && n.K == "sym" {
+		lone := true
+		if c.i+1 < len(c.t) {
+			m := c.t[c.i+1]
+			lone = !(m.K == "op" && m.S != "not") && m.K != "idx" && m.K != "dot"
+		}
+		if lone {
 			c.i++
 			return "(" + t.S + " " + n.S + ")"
 		}
-		return "(" + t.S + ")"
+	}
+	return "(" + t.S + ")"
+}
+
+// arm: an arm of if/else: a block or, without braces, one expression or break/continue.
+func (c *ptClimber) arm() string {
+	t, ok := c.peek()
+	switch {
+	case !ok:
+		return "#missing-arm"
+	case t.K == "block":
+		c.i++
+		return ptPrefixAtom(t)
+	case t.K == "kw" && (t.S == "break" || t.S == "continue"):
+		return c.ctl()
 	}
 	return c.expr(0)
 }
@@ -352,19 +407,17 @@ func (c *ptClimber) stmt() string {
 func (c *ptClimber) ifStmt() string {
 	c.i++ // if
 	cond := c.expr(0)
-	th, _ := c.peek()
-	c.i++
-	els := "()" // the empty list reads as nil; the word nil would read as a symbol
+	th := c.arm()
+	els := "()" // the empty list reads as nil
 	if n, ok := c.peek(); ok && n.K == "kw" && n.S == "else" {
 		c.i++
 		if m, ok := c.peek(); ok && m.K == "kw" && m.S == "if" {
 			els = c.ifStmt()
 		} else {
-			els = ptPrefixAtom(m)
-			c.i++
+			els = c.arm()
 		}
 	}
-	return "(cond " + cond + " " + ptPrefixAtom(th) + " " + els + ")"
+	return "(cond " + cond + " " + th + " " + els + ")"
 }
 
 func (c *ptClimber) forStmt(label string) string {
@@ -715,6 +768,16 @@ func (d *prattDriver) classify(x zygo.Sexp) any {
 		return []any{"bool", v.Val}
 	case *zygo.SexpStr:
 		return []any{"str", v.S}
+	case *zygo.SexpSentinel:
+		if v == zygo.SexpNull {
+			return []any{"nil"}
+		}
+	case *zygo.SexpChar:
+		return []any{"chr", int64(v.Val)}
+	case *zygo.SexpUint64:
+		return []any{"uint", strconv.FormatUint(v.Val, 10)}
+	case *zygo.SexpFloat:
+		return []any{"flt", fmtFloat(v.Val)}
 	case *zygo.SexpSymbol:
 		n := v.Name()
 		switch {
@@ -968,6 +1031,7 @@ var (
 		{ptBlock(ptSym("a"), ptOp("-"), ptInt(1))}, {ptBlock(ptSym("p"), ptOp("or"), ptSym("q"))},
 		{ptBlock(ptSym("c"), ptOp("="), ptInt(4), ptSemi, ptSym("c"), ptOp("*"), ptInt(2))},
 		{ptCall("tr", ptBlock(ptSym("a"), ptOp("+"), ptInt(1)))},
+		{ptNil}, {ptChr('x')}, {ptUint("3")}, {ptFlt("1.5", "")}, {ptIntAs(2, "0x2")}, {ptIntAs(5, "0b101")},
 	}
 	ptPoolIndexable = [][]ptok{
 		{ptSym("v")}, {ptCall("tr", ptSym("v"))}, {ptBlock(ptSym("v"))}, {ptSym("w"), ptIdx(ptInt(1))},
@@ -1196,6 +1260,11 @@ func ptStmtTemplates() [][]ptok {
 		{ptBool(true)},
 		{ptSym("d"), ptOp("-="), ptInt(2), ptOp("**"), ptSym("c")},
 		{ptSym("s"), ptIdx(ptInt(1), ptColon, ptInt(3))},
+		// statements that start with a literal of the other kinds
+		{ptNil},
+		{ptChr('c'), ptOp("=="), ptChr('c')},
+		{ptUint("5")},
+		{ptIntAs(31, "0x1F"), ptOp("+"), ptSym("a")},
 	}
 }
 
@@ -1217,7 +1286,11 @@ func (g *ptRgen) numAtom(depth int) []ptok {
 	case 0, 1, 2, 3:
 		return []ptok{ptSym(pick(g.r, []string{"a", "b", "c", "d"}))}
 	case 4, 5:
-		return []ptok{ptInt(int64(g.r.intn(5)))}
+		n := int64(g.r.intn(5))
+		if g.r.intn(4) == 0 {
+			return []ptok{ptIntAs(n, fmt.Sprintf(pick(g.r, []string{"0x%x", "0o%o", "0b%b"}), n))}
+		}
+		return []ptok{ptInt(n)}
 	case 6:
 		return []ptok{ptInt(-int64(1 + g.r.intn(3)))}
 	case 7:
@@ -1311,9 +1384,15 @@ func (g *ptRgen) stmt(depth int) []ptok {
 		return ptCat(g.lvalue(), []ptok{ptOp(pick(g.r, []string{"++", "--"}))})
 	case 4:
 		if depth > 0 {
-			s := ptCat([]ptok{ptKw("if")}, g.boolean(depth-1, g.r.intn(2)), []ptok{ptBlock(g.stmts(depth-1, 1+g.r.intn(2))...)})
+			arm := func(n int) []ptok { // an arm with braces or, one time in three, without
+				if g.r.intn(3) == 0 {
+					return ptCat(g.lvalue(), []ptok{ptOp(pick(g.r, []string{"=", "+=", "-="}))}, g.num(0, g.r.intn(2)))
+				}
+				return []ptok{ptBlock(g.stmts(depth-1, n)...)}
+			}
+			s := ptCat([]ptok{ptKw("if")}, g.boolean(depth-1, g.r.intn(2)), arm(1+g.r.intn(2)))
 			if g.r.bool() {
-				s = ptCat(s, []ptok{ptKw("else"), ptBlock(g.stmts(depth-1, 1)...)})
+				s = ptCat(s, []ptok{ptKw("else")}, arm(1))
 			}
 			return s
 		}
@@ -1547,6 +1626,37 @@ func init() {
 			}
 		}
 
+		// if / else whose arms are written without braces: one expression (every literal kind among them)
+		arms := [][]ptok{
+			{ptSym("c"), ptOp("="), ptInt(1)}, {ptCall("tr", ptInt(7))}, {ptInt(5)}, {ptNil}, {ptChr('x')}, {ptUint("7")},
+			{ptSym("a"), ptOp("++")}, {ptSym("d"), ptOp("+="), ptSym("a"), ptOp("*"), ptInt(2)},
+		}
+		for ci, cd := range conds {
+			cd2 := conds[(ci+3)%len(conds)]
+			for k, x := range arms {
+				y := arms[(ci+k+3)%len(arms)]
+				z := arms[(ci+k+5)%len(arms)]
+				b1 := bodies[(ci+k)%len(bodies)]
+				forms := [][]ptok{
+					ptCat([]ptok{ptKw("if")}, cd, x, []ptok{ptKw("else")}, y),
+					ptCat([]ptok{ptSym("d"), ptOp("="), ptInt(0), ptNl, ptKw("if")}, cd, x, []ptok{ptNl, ptSym("d"), ptOp("+"), ptInt(1)}),
+				}
+				switch (ci + k) % 4 {
+				case 0:
+					forms = append(forms, ptCat([]ptok{ptKw("if")}, cd, x))
+				case 1:
+					forms = append(forms, ptCat([]ptok{ptKw("if")}, cd, []ptok{ptBlock(b1...), ptKw("else")}, y))
+				case 2:
+					forms = append(forms, ptCat([]ptok{ptKw("if")}, cd, x, []ptok{ptKw("else"), ptBlock(b1...), ptSemi, ptSym("c")}))
+				case 3:
+					forms = append(forms, ptCat([]ptok{ptKw("if")}, cd, x, []ptok{ptKw("else"), ptKw("if")}, cd2, y, []ptok{ptKw("else")}, z))
+				}
+				for fi, f := range forms {
+					emit("i", modes2[(ci+k+fi)%2], f, uint64(idx), false)
+				}
+			}
+		}
+
 		// (f) go-style for headers
 		inits := [][]ptok{{ptSym("i"), ptOp(":="), ptInt(0)}, {ptSym("i"), ptOp("="), ptSym("c"), ptOp("-"), ptInt(2)}, {}, {ptSym("i"), ptOp(","), ptSym("j"), ptOp("="), ptInt(0), ptOp(","), ptInt(3)}}
 		tests := [][]ptok{{ptSym("i"), ptOp("<"), ptInt(3)}, {ptSym("i"), ptOp("<"), ptSym("c"), ptOp("+"), ptInt(1), ptOp("and"), ptSym("p")}, {ptSym("i"), ptOp("*"), ptInt(2), ptOp("<="), ptSym("v"), ptIdx(ptInt(0)), ptOp("-"), ptInt(6)}, {ptOp("not"), ptSym("q"), ptOp("and"), ptSym("i"), ptOp("<"), ptInt(2)}}
@@ -1557,6 +1667,15 @@ func init() {
 			{ptKw("if"), ptSym("i"), ptOp("=="), ptInt(1), ptBlock(ptKw("continue")), ptNl, ptCall("tr", ptSym("i"))},
 			{ptKw("if"), ptSym("i"), ptOp("=="), ptInt(1), ptBlock(ptKw("break")), ptSemi, ptSym("d"), ptOp("++")},
 			{},
+			// break / continue without braces, followed by else or by the next statement
+			{ptKw("if"), ptSym("i"), ptOp("=="), ptInt(1), ptKw("continue"), ptKw("else"), ptSym("a"), ptOp("+="), ptSym("i")},
+			{ptKw("if"), ptSym("i"), ptOp("=="), ptInt(1), ptKw("continue"), ptNl, ptSym("a"), ptOp("+="), ptSym("i")},
+			{ptKw("if"), ptSym("i"), ptOp("=="), ptInt(1), ptKw("continue"), ptSemi, ptSym("a"), ptOp("+="), ptSym("i")},
+			{ptKw("if"), ptSym("i"), ptOp("=="), ptInt(2), ptKw("break"), ptNl, ptCall("tr", ptSym("i")), ptNl, ptSym("a"), ptOp("+="), ptSym("i")},
+			{ptKw("if"), ptSym("i"), ptOp("=="), ptInt(1), ptKw("continue"), ptNl, ptSym("v"), ptIdx(ptSym("i")), ptOp("="), ptSym("a")},
+			{ptKw("if"), ptSym("i"), ptOp("=="), ptInt(2), ptKw("break"), ptNl, ptSym("d"), ptOp("++")},
+			{ptKw("if"), ptSym("i"), ptOp("=="), ptInt(2), ptKw("break"), ptKw("else"), ptKw("if"), ptSym("i"), ptOp("=="), ptInt(0), ptKw("continue"), ptKw("else"), ptSym("d"), ptOp("++")},
+			{ptKw("if"), ptSym("i"), ptOp("=="), ptInt(1), ptBlock(ptKw("continue")), ptKw("else"), ptSym("a"), ptOp("+="), ptSym("i")},
 		}
 		for ii, in := range inits {
 			for ti, ts := range tests {
@@ -1584,6 +1703,17 @@ func init() {
 				}
 			}
 		}
+		// a statement after an unconditional continue (never run, but translated)
+		for _, m := range modes2 {
+			emit("f", m, ptCat([]ptok{ptKw("for"), ptSym("i"), ptOp(":="), ptInt(0), ptSemi, ptSym("i"), ptOp("<"), ptInt(3), ptSemi, ptSym("i"), ptOp("++"),
+				ptBlock(ptCall("tr", ptSym("i")), ptNl, ptKw("continue"), ptNl, ptSym("a"), ptOp("+="), ptSym("i"))}, []ptok{ptSemi, ptSym("a")}), uint64(idx), false)
+			emit("f", m, ptCat([]ptok{ptLabel("outer"), ptKw("for"), ptSym("i"), ptOp(":="), ptInt(0), ptSemi, ptSym("i"), ptOp("<"), ptInt(3), ptSemi, ptSym("i"), ptOp("++"),
+				ptBlock(ptKw("for"), ptSym("j"), ptOp(":="), ptInt(0), ptSemi, ptSym("j"), ptOp("<"), ptInt(3), ptSemi, ptSym("j"), ptOp("++"),
+					ptBlock(ptKw("if"), ptSym("j"), ptOp("=="), ptInt(1), ptKw("continue"), ptSym("outer"), ptNl, ptSym("a"), ptOp("+="), ptInt(1), ptNl, ptCall("tr", ptSym("i"), ptSym("j"))))}), uint64(idx), false)
+			emit("f", m, ptCat([]ptok{ptSym("a"), ptOp("="), ptInt(0), ptSemi, ptLabel("outer"), ptKw("for"), ptSym("i"), ptOp(":="), ptInt(0), ptSemi, ptSym("i"), ptOp("<"), ptInt(3), ptSemi, ptSym("i"), ptOp("++"),
+				ptBlock(ptKw("for"), ptSym("j"), ptOp(":="), ptInt(0), ptSemi, ptSym("j"), ptOp("<"), ptInt(3), ptSemi, ptSym("j"), ptOp("++"),
+					ptBlock(ptKw("if"), ptSym("i"), ptOp("*"), ptSym("j"), ptOp(">="), ptInt(2), ptKw("break"), ptSym("outer"), ptKw("else"), ptSym("a"), ptOp("+="), ptInt(1))), ptSemi, ptSym("a")}), uint64(idx), false)
+		}
 		// labels, nested loops
 		for _, m := range modes2 {
 			emit("f", m, ptCat([]ptok{ptLabel("outer"), ptKw("for"), ptSym("i"), ptOp(":="), ptInt(0), ptSemi, ptSym("i"), ptOp("<"), ptInt(3), ptSemi, ptSym("i"), ptOp("++"),
@@ -1593,6 +1723,33 @@ func init() {
 				ptBlock(ptKw("for"), ptSym("j"), ptOp(":="), ptInt(0), ptSemi, ptSym("j"), ptOp("<"), ptInt(3), ptSemi, ptSym("j"), ptOp("++"),
 					ptBlock(ptKw("if"), ptSym("i"), ptOp("*"), ptSym("j"), ptOp(">="), ptInt(2), ptBlock(ptKw("break"), ptSym("outer")), ptSemi, ptSym("a"), ptOp("+="), ptInt(1))), ptSemi, ptSym("a")}), uint64(idx), false)
 			emit("f", m, ptCat([]ptok{ptLabel("lp"), ptKw("for"), ptSym("a"), ptOp("<"), ptInt(6), ptBlock(ptSym("a"), ptOp("++"), ptSemi, ptKw("if"), ptSym("a"), ptOp("mod"), ptInt(2), ptOp("=="), ptInt(0), ptBlock(ptKw("continue"), ptSym("lp")), ptSemi, ptCall("tr", ptSym("a")))}), uint64(idx), false)
+		}
+
+		// (l) literals: a slice whose lower bound is a literal of any spelling written directly before the colon;
+		// Inf as the right operand of + and -
+		for _, sel := range [][]ptok{
+			{ptIntAs(1, "0x1"), ptColon, ptInt(3)}, {ptIntAs(1, "0b1"), ptColon}, {ptIntAs(1, "0o1"), ptColon, ptSym("c")},
+			{ptIntAs(0, "0x0"), ptColon, ptIntAs(2, "0x2")}, {ptUint("1"), ptColon, ptInt(3)}, {ptFlt("1", "1.0"), ptColon, ptInt(3)},
+			{ptBool(true), ptColon, ptInt(3)}, {ptInt(-1), ptColon}, {ptInt(1), ptColon, ptIntAs(3, "0b11")},
+		} {
+			for _, m := range []string{"tight", "spaced", "loose"} {
+				emit("l", m, []ptok{ptSym("s"), ptIdx(sel...)}, uint64(idx), false)
+			}
+			emit("l", "tight", []ptok{ptSym("b"), ptOp("="), ptSym("s"), ptIdx(sel...), ptSemi, ptSym("b"), ptIdx(ptInt(0))}, uint64(idx), false)
+		}
+		for _, x := range [][]ptok{
+			{ptSym("a"), ptOp("="), ptInt(2), ptOp("-"), ptInf, ptSemi, ptSym("a")},
+			{ptSym("d"), ptOp("="), ptInf, ptNl, ptSym("d"), ptOp("-"), ptInf},
+			{ptSym("a"), ptOp("+"), ptInf},
+			{ptInt(2), ptOp("*"), ptSym("c"), ptOp("-"), ptInf, ptOp("<"), ptSym("b")},
+			{ptSym("v"), ptIdx(ptInt(0)), ptOp("-"), ptInf},
+			{ptCall("tr", ptInt(1)), ptOp("+"), ptInf, ptOp("-"), ptInf},
+			{ptBlock(ptSym("a"), ptOp("-"), ptInt(1)), ptOp("-"), ptInf, ptOp("=="), ptSym("a"), ptOp("-"), ptInf},
+			{ptSym("d"), ptOp("-="), ptInf, ptSemi, ptSym("d")},
+		} {
+			for _, m := range []string{"tight", "spaced", "loose"} {
+				emit("l", m, x, uint64(idx), false)
+			}
 		}
 
 		// (t) typed random programs, (r) untyped random operator sequences
